@@ -529,6 +529,8 @@ func evalWhileLoopStmt(vm *r.VM, node *syntax.WhileLoopStmt) error {
 	// set context's current scope with new one
 
 	for {
+		// the condition belongs to the line of 每当 (the last pass left the line of its last statement)
+		vm.SetCurrentLine(node.GetCurrentLine())
 		// #1. first execute expr
 		trueExpr, err := evalExpression(vm, node.TrueExpr)
 		if err != nil {
